@@ -11,6 +11,7 @@ Probed by execution on two fixed inputs (the outcome must be one of two whitelis
   MS_VALUE_PARSED       MultiSession value: two TLVs [0],[code] and ignored on receipt (false) / one TLV [0, codes] read back (true)
   AUTO_AS_FROM_PEER_CAP local-as auto: OPEN = peer's 2-octet field + ASN4(0) (false) / peer's true AS in field and capability (true)
   AUTO_COLLISION_CHECK  local-as auto: validate() identifier collision never tested (false) / tested on the negotiated local AS (true)
+  EXT_BY_TYPE_OCTET     RFC 9072 encoding recognised only when both marker octets are 255 (false) / by the type octet alone, length octet non-zero (true)
   COLLISION_ON_TRUE_AS  Negotiated.validate iBGP router-id collision test uses the 2-octet field (false) or the true peer AS (true)
 Fail closed: a missing name, a non-integer, an unexpected registered capability code, an unexpected
 probe outcome or an `exabgp` imported from another tree all raise.
@@ -196,7 +197,23 @@ def _probe2():
         auto_collision = True
     else:
         raise Untranslatable(f'probe: unexpected validate() outcome in auto mode {err[:2]}')
-    return ms_parsed, auto_true, auto_collision
+    # RFC 9072: the extended encoding is selected by the type octet (255) whatever the non-zero length octet before it
+    from exabgp.bgp.message import Message
+    from exabgp.bgp.message.direction import Direction
+    from exabgp.bgp.message.notification import Notify
+    from exabgp.bgp.message.open.capability.negotiated import Negotiated
+
+    body = bytes([4, 0xFD, 0xE9, 0, 90, 1, 2, 3, 5]) + bytes([4, 255, 0, 5, 2, 0, 2, 2, 0])  # length octet 4, route-refresh
+    try:
+        o = Message.unpack(Message.CODE.OPEN, body, Negotiated(n, Direction.IN))
+        if [int(k) for k in o.capabilities] != [int(Capability.CODE.ROUTE_REFRESH)]:
+            raise Untranslatable(f'probe: RFC 9072 OPEN with length octet 4 decoded as {o.capabilities}')
+        ext_by_type = True
+    except Notify as exc:
+        if exc.code != 2:
+            raise Untranslatable(f'probe: RFC 9072 OPEN with length octet 4 answered {exc.code}/{exc.subcode}')
+        ext_by_type = False
+    return ms_parsed, auto_true, auto_collision, ext_by_type
 
 
 def main(repo, gen_dir):
@@ -286,11 +303,12 @@ def main(repo, gen_dir):
     lines.append(f'Definition LOCAL_AS_FROM_CAP : bool := {"true" if local_from_cap else "false"}.')
     lines.append(f'Definition COLLISION_ON_TRUE_AS : bool := {"true" if collision_true_as else "false"}.')
     lines.append(f'Definition UNKNOWN_PARAM_SUBCODE : Z := {unknown_param}.')
-    ms_parsed, auto_true, auto_collision = _probe2()
+    ms_parsed, auto_true, auto_collision, ext_by_type = _probe2()
     lines.append(f'Definition MS_VALUE_PARSED : bool := {"true" if ms_parsed else "false"}.')
     lines.append(f'Definition AUTO_AS_FROM_PEER_CAP : bool := {"true" if auto_true else "false"}.')
     lines.append(f'Definition AUTO_COLLISION_CHECK : bool := {"true" if auto_collision else "false"}.')
+    lines.append(f'Definition EXT_BY_TYPE_OCTET : bool := {"true" if ext_by_type else "false"}.')
 
     write_if_changed(os.path.join(gen_dir, 'Gen_Registry.v'), '\n'.join(lines) + '\n')
     return {'LOCAL_AS_FROM_CAP': local_from_cap, 'COLLISION_ON_TRUE_AS': collision_true_as, 'UNKNOWN_PARAM_SUBCODE': unknown_param,
-            'MS_VALUE_PARSED': ms_parsed, 'AUTO_AS_FROM_PEER_CAP': auto_true, 'AUTO_COLLISION_CHECK': auto_collision}
+            'MS_VALUE_PARSED': ms_parsed, 'AUTO_AS_FROM_PEER_CAP': auto_true, 'AUTO_COLLISION_CHECK': auto_collision, 'EXT_BY_TYPE_OCTET': ext_by_type}
